@@ -50,7 +50,9 @@ class PyCodeMapper(LokiStringifyMapper):
         return str(expr.value)
 
     def map_cast(self, expr, enclosing_prec, *args, **kwargs):
-        _type = SymbolAttributes(BasicType.from_fortran_type(expr.name), kind=expr.kind)
+        # The frontends create ``Cast`` nodes for both ``REAL(...)`` and ``INT(...)``
+        dtype = BasicType.INTEGER if expr.name.lower() == 'int' else BasicType.from_fortran_type(expr.name)
+        _type = SymbolAttributes(dtype, kind=expr.kind)
         expression = self.parenthesize_if_needed(
             self.join_rec('', expr.parameters, PREC_NONE, *args, **kwargs),
             PREC_CALL, PREC_NONE)
